@@ -9,7 +9,7 @@ from .. import lib, rfamlock as rl
 
 PID = "X05"
 TIERS = {"quick": dict(n=160, cfg="MC_RfamLock.cfg"), "thorough": dict(n=1500, cfg="MC_RfamLock_6.cfg")}
-ACTIONS = ("Acquire", "EnsureOk", "EnsureFail", "ReleaseUnwind", "Release", "Search", "Collect", "CollectDone", "Shutdown")
+ACTIONS = ("Start", "Acquire", "EnsureOk", "EnsureFail", "ReleaseUnwind", "Release", "Search", "Collect", "CollectDone", "Shutdown")
 MAX_REPORTED = 6
 
 
